@@ -820,3 +820,86 @@ func resolvedResults(r *ssa.Return) []ssa.Value {
 	}
 	return out
 }
+
+// ---------- fields by role (so that renaming an unexported field is not an event)
+
+// uniqueFieldWhere returns the name of the only field of struct type T whose
+// type satisfies pred ("" if there is none or more than one).
+func uniqueFieldWhere(T types.Type, pred func(types.Type) bool) string {
+	st, ok := T.Underlying().(*types.Struct)
+	if !ok {
+		return ""
+	}
+	name := ""
+	for i := 0; i < st.NumFields(); i++ {
+		if pred(st.Field(i).Type()) {
+			if name != "" {
+				return ""
+			}
+			name = st.Field(i).Name()
+		}
+	}
+	return name
+}
+
+func isBasicKind(t types.Type, k types.BasicKind) bool {
+	b, ok := t.Underlying().(*types.Basic)
+	return ok && b.Kind() == k
+}
+
+// nonNullFieldOf: for a nullable-union codec type — a struct with one
+// sub-codec field (the Codec interface or a concrete codec type) and exactly
+// one uint8 field — the name of the uint8 field, the index of the value
+// branch; "" otherwise.
+func nonNullFieldOf(P *Program, T types.Type) string {
+	nn := uniqueFieldWhere(T, func(t types.Type) bool { return isBasicKind(t, types.Uint8) })
+	if nn == "" || subCodecFieldOf(P, T) == "" {
+		return ""
+	}
+	return nn
+}
+
+// subCodecFieldOf: the only field of T that holds a codec (the Codec
+// interface or a concrete type with the codec method set).
+func subCodecFieldOf(P *Program, T types.Type) string {
+	return uniqueFieldWhere(T, func(t types.Type) bool {
+		if isCodecIface(P, t) {
+			return true
+		}
+		if ci, ok := P.NamedType(P.Avro, "Codec").Underlying().(*types.Interface); ok {
+			if _, isIface := t.Underlying().(*types.Interface); !isIface {
+				return types.Implements(t, ci) || types.Implements(types.NewPointer(t), ci)
+			}
+		}
+		return false
+	})
+}
+
+// recordFieldRoles finds the per-field entry type of the record codec: the
+// module struct with exactly one Codec-interface field and exactly one
+// uintptr field (the field's offset in the Go struct).
+func recordFieldRoles(P *Program) (T *types.Named, offset, codec string) {
+	if P.Avro == nil {
+		return nil, "", ""
+	}
+	sc := P.Avro.Pkg.Scope()
+	for _, n := range sc.Names() {
+		tn, ok := sc.Lookup(n).(*types.TypeName)
+		if !ok {
+			continue
+		}
+		nt, ok := types.Unalias(tn.Type()).(*types.Named)
+		if !ok {
+			continue
+		}
+		off := uniqueFieldWhere(nt, func(t types.Type) bool { return isBasicKind(t, types.Uintptr) })
+		cd := uniqueFieldWhere(nt, func(t types.Type) bool { return isCodecIface(P, t) })
+		if off != "" && cd != "" {
+			if T != nil {
+				return nil, "", "" // ambiguous
+			}
+			T, offset, codec = nt, off, cd
+		}
+	}
+	return
+}
